@@ -371,6 +371,8 @@ class Canon(object):
         self.sentinels = set(sentinels)
         self.sentinel_funcs = set()
         self.sentinel_attrs = set()
+        self.stored_any = frozenset()
+        self.stored_late = frozenset()
         self._thread_mode = 'none'
         self._push_known = 0
 
@@ -811,9 +813,14 @@ class Canon(object):
         params = set(a.arg for a in fn.args.args + fn.args.kwonlyargs + fn.args.posonlyargs)
         QUIET_CALLS = ('len', 'isinstance', 'type', 'id', 'callable')
 
+        from .stale import _foreign_receiver
+
         def loud_calls(e):
+            # (a method of a standard-library object -- `self.fut.done()`, `spawn._before.tell()`, `os.read(..)` -- runs no package code: it
+            # cannot re-bind a field)
             return [k for k in ast.walk(e) if isinstance(k, (ast.Await, ast.Yield, ast.YieldFrom)) or
-                    (isinstance(k, ast.Call) and not (isinstance(k.func, ast.Name) and k.func.id in QUIET_CALLS and k.func.id not in stores))]
+                    (isinstance(k, ast.Call) and not (isinstance(k.func, ast.Name) and k.func.id in QUIET_CALLS and k.func.id not in stores)
+                     and not (isinstance(k.func, ast.Attribute) and _foreign_receiver(k.func.value)))]
 
         def touches(st, attrs, root):
             for n in ast.walk(st):
@@ -841,8 +848,6 @@ class Canon(object):
             if not isinstance(v, ast.Call) or any(count(t, x) or loud_calls(t) for t in rest):
                 return False
             parts = [v.func] + list(v.args) + [k.value for k in v.keywords]
-            if isinstance(v.func, ast.Name) and v.func.id == x:
-                return False
             return not any(loud_calls(p_) for p_ in parts)
 
         todo = []
@@ -868,20 +873,69 @@ class Canon(object):
                 root = e.id
                 if root != 'self' and not (root in params and root not in stores):
                     continue
-                seen, ok = 0, False
-                for nx in stmts[i + 1:]:
+                # walk what follows the binding in evaluation order; `dirty` = something that might have re-bound the field may have run
+                state = {'seen': 0, 'bad': False}
+
+                def simple(nx, dirty):
                     k = count(nx, x)
-                    if touches(nx, attrs, root):
-                        break
-                    if loud_calls(nx):
-                        if k and seen + k == nloads[x] and last_ok(nx, x):
-                            seen += k
-                            ok = True
-                        break
-                    seen += k
-                    if seen == nloads[x]:
-                        ok = True
-                        break
+                    t_ = touches(nx, attrs, root)
+                    loud = bool(loud_calls(nx))
+                    if k:
+                        if dirty:
+                            state['bad'] = True
+                        elif (loud or t_) and not last_ok(nx, x):
+                            state['bad'] = True          # the read may be evaluated after the call / store of the same statement
+                        state['seen'] += k
+                    return dirty or loud or t_
+
+                def expr(e, dirty):
+                    if e is None:
+                        return dirty
+                    k = count(e, x)
+                    loud = bool(loud_calls(e))
+                    if k:
+                        if dirty or loud:
+                            state['bad'] = True
+                        state['seen'] += k
+                    return dirty or loud
+
+                def walk(body, dirty):
+                    for nx in body:
+                        if isinstance(nx, ast.If):
+                            dirty = expr(nx.test, dirty)
+                            d1 = walk(nx.body, dirty)
+                            d2 = walk(nx.orelse, dirty)
+                            dirty = d1 or d2
+                        elif isinstance(nx, (ast.While, ast.For, ast.AsyncFor)):
+                            inner = any(loud_calls(z) or touches(z, attrs, root) for z in [nx])
+                            dirty = dirty or inner          # a later iteration runs after the calls of an earlier one
+                            if isinstance(nx, ast.While):
+                                expr(nx.test, dirty)
+                            else:
+                                expr(nx.iter, dirty)
+                            walk(nx.body, dirty)
+                            walk(nx.orelse, dirty)
+                        elif isinstance(nx, ast.Try):
+                            d1 = walk(nx.body, dirty)
+                            dh = dirty or any(loud_calls(z) or touches(z, attrs, root) for z in nx.body)
+                            d2 = d1
+                            for h in nx.handlers:
+                                d2 = walk(h.body, dh) or d2
+                            d3 = walk(nx.orelse, d1)
+                            dirty = walk(nx.finalbody, d2 or d3 or dh) if nx.finalbody else (d2 or d3)
+                        elif isinstance(nx, (ast.With, ast.AsyncWith)):
+                            for it in nx.items:
+                                dirty = expr(it.context_expr, dirty)
+                                if it.optional_vars is not None and touches(it.optional_vars, attrs, root):
+                                    dirty = True
+                            dirty = walk(nx.body, True if isinstance(nx, ast.AsyncWith) else dirty)
+                        elif isinstance(nx, (ast.FunctionDef, ast.AsyncFunctionDef, ast.ClassDef)):
+                            state['bad'] = True
+                        else:
+                            dirty = simple(nx, dirty)
+                    return dirty
+                walk(stmts[i + 1:], False)
+                seen, ok = state['seen'], not state['bad']
                 if ok and seen == nloads[x]:
                     todo.append(st)
         blocks(fn.body)
@@ -1409,6 +1463,16 @@ class Canon(object):
             if isinstance(root, ast.Call):
                 root = ast.Name(id='self', ctx=ast.Load())          # super(C, self).method
             if not loads or not all(id(n) in callpos for n in loads) or stores.get(root.id, 0) > (0 if root.id in params or root.id == 'self' else 1):
+                del defs[x]
+                continue
+            # the method found at the binding must be the one found at the call: the method name is never stored into as an attribute
+            # anywhere in the package, and every field on the way to the receiver is one only constructors bind (a field that is re-bound
+            # later -- `self._before = <fresh store>` -- may have been re-bound by any call made between the binding and the use)
+            chain, e_ = [], d.value
+            while isinstance(e_, ast.Attribute):
+                chain.append(e_.attr)
+                e_ = e_.value
+            if '*' in self.stored_any or chain[0] in self.stored_any or any(a_ in self.stored_late for a_ in chain[1:]):
                 del defs[x]
         if not defs:
             return
@@ -2410,6 +2474,28 @@ def canonicalise(trees, skip=()):
                 if isinstance(fn_, (ast.FunctionDef, ast.AsyncFunctionDef)) and any(isinstance(x, ast.Name) and x.id in sent for x in ast.walk(fn_)):
                     sent_funcs.add(fn_.name)
 
+    # attribute names the package stores into: anywhere (a method name in this set may have been re-bound on the instance), and
+    # outside constructors (a field in this set may be re-bound by any call made between two reads of it)
+    st_any, st_late = set(), set()
+    for n_, t_ in trees.items():
+        if n_ in skip:
+            continue
+        for fn_ in ast.walk(t_):
+            if isinstance(fn_, (ast.FunctionDef, ast.AsyncFunctionDef)):
+                for x in ast.walk(fn_):
+                    if isinstance(x, ast.Attribute) and isinstance(x.ctx, (ast.Store, ast.Del)):
+                        st_any.add(x.attr)
+                        if fn_.name != '__init__':
+                            st_late.add(x.attr)
+                    elif isinstance(x, ast.Call) and isinstance(x.func, ast.Name) and x.func.id in ('setattr', 'delattr'):
+                        if len(x.args) >= 2 and isinstance(x.args[1], ast.Constant) and isinstance(x.args[1].value, str):
+                            st_any.add(x.args[1].value)
+                            st_late.add(x.args[1].value)
+                        else:
+                            st_any.add('*')
+                            st_late.add('*')
+    st_any, st_late = frozenset(st_any), frozenset(st_late)
+
     def run():
         for n, t in list(trees.items()):
             if n in skip:
@@ -2417,6 +2503,7 @@ def canonicalise(trees, skip=()):
             c = Canon(sigs, nn, sent)
             c.sentinel_funcs = sent_funcs
             c.sentinel_attrs = sent_attrs
+            c.stored_any, c.stored_late = st_any, st_late
             trees[n] = c.module(t)
             for k, v in c.count.items():
                 total[k] = total.get(k, 0) + v
